@@ -8,6 +8,7 @@ Extraction "c13.ml"
   Model.DrvMap.pn53x_status_outcome Model.DrvMap.pn53x_errframe_outcome Model.DrvMap.pn53x_ioerror_map
   Model.DrvMap.rcs380_status_outcome Model.DrvMap.rcs380_bytes_outcome Model.DrvMap.rcs380_setup_outcome
   Model.DrvMap.pn53x_readreg_outcome Model.DrvMap.rcs380_payload_outcome
+  Model.DrvMap.tt3_poll Model.DrvMap.tt1_fifo_outcome
   Model.DrvMap.udp_outcome Model.DrvMap.allowed
   Skel.ExnCheck.escapes Skel.ExnCheck.closedb Skel.ExnCheck.summary_okb Skel.ExnCheck.solution
   Gen.DriverSkel.driver_programs Gen.DriverSkel.class_names Gen.DriverSkel.documented_classes.
